@@ -127,6 +127,7 @@ impl Prop for C09Schedules {
                 1 => gen::cage_theme().prop_map(move |r| zero(gen::build(&r))),
                 // the side to move is about to be mated: mate scores carry the remaining depth
                 2 => gen::pre_terminal(),
+                3 => gen::mating_material(),
                 1 => gen::placement(8).prop_map(move |r| zero(gen::build(&r))),
                 1 => gen::walk(40).prop_map(move |w| zero(gen::walk_end(&w))),
             ],
